@@ -51,17 +51,18 @@ def envOf (dbFile : Option Bytes) (dbs : List Model.DbInfo) (das : List DbArg) :
         else da.files.findSome? fun (fn, d) => if path == base ++ toString fn then some d else none
     parseDatabase := fun _ => dbs
     parseClass := fun data => match das.find? (fun da => da.classFile == some data) with
-      | some da => da.classes | none => [] }
+      | some da => da.classes | none => []
+    -- the iteration order of Go's `range` over the pg_class map: any rearrangement gives the same result
+    -- (Props/C11Control); the driver takes the reversed list so that the sort of fixes/control/08 has work to do
+    order := List.reverse }
 
 def showSeqEntry (s : Model.SequenceData) : String :=
   s!"{hexOrDash s.name}:{s.oid}:{s.filenode}:{s.lastValue}:{b2s s.isCalled}"
 
-def sortSeqs (l : List Model.SequenceData) : List Model.SequenceData :=
-  l.mergeSort fun a b => a.filenode ≤ b.filenode
-
+/-- the listing in the order the function returns it (no canonicalisation: the order is part of the result) -/
 def showFind : Option (List Model.SequenceData) → String
   | none => "err"
-  | some l => "[" ++ joinWith ";" ((sortSeqs l).map showSeqEntry) ++ "]"
+  | some l => "[" ++ joinWith ";" (l.map showSeqEntry) ++ "]"
 
 def showScan : Option (List (Bytes × List Model.SequenceData)) → String
   | none => "err"
@@ -105,6 +106,9 @@ def dbArgText (d : Spec.Db) (f : DbFiles) : String :=
   s!"{d.oid}|{match f.classFile with | some b => hexRle b | none => "~"}|{showClassList (claimedClasses d.rels)}|" ++
   (if f.files.isEmpty then "-" else joinWith "," (f.files.map fun (fn, b) => s!"{fn}={hexRle b}"))
 
+/-- the expected listing.  C20 asks for each sequence once with its own state; the ORDER of the listing is the one
+FindSequences documents since fixes/control/08 — ascending relfilenode — and is compared exactly (C11: reproducible
+order; the handler no longer sorts). -/
 def showListing (l : List Spec.SeqListing) : String :=
   "[" ++ joinWith ";" ((l.mergeSort fun a b => a.filenode ≤ b.filenode).map fun s =>
     s!"{hexOrDash s.name}:{s.oid}:{s.filenode}:{s.lastValue}:{b2s s.isCalled}") ++ "]"
@@ -166,6 +170,20 @@ def seqscanGen (seed idx size : Nat) : Case :=
   { tags := [s!"note={k.note}", s!"dbs={k.dbs.length}", "nt"], model := seqscanEval args, spec := "-", args }
 
 def seqscan : Family := { name := "seqscan", gen := seqscanGen, eval := seqscanEval, fixed := 4 }
+
+/-! ### seqrepeat (C11): FindSequences for every database and ScanAllSequences, 20 times each on the same data directory;
+    the handler answers `same` when all 20 `json.Marshal` renderings of each are byte-identical.  MODEL = SPEC = `same`
+    (the model is a function; that its one unspecified input, the map iteration order, does not matter is
+    `C11_findSequences_order_independent` / `C11_scanAllSequences_order_independent`).  Same clusters as `seqfind`. -/
+
+def seqrepeatGen (seed idx size : Nat) : Case :=
+  let k := (genSeqClusterCase idx size).run' (Prng.ofSeed seed idx)
+  let n := (k.dbs.map fun d => d.sequences.length).foldl max 0
+  { tags := [s!"note={k.note}", (if n < 2 then "maxseqs<2" else if n < 10 then "maxseqs<10" else "maxseqs>=10")] ++
+            (if n ≥ 2 then ["nt"] else []),
+    model := "same", spec := "same", args := clusterArgs k }
+
+def seqrepeat : Family := { name := "seqrepeat", gen := seqrepeatGen, eval := fun _ => "same", fixed := 4 }
 
 /-! ### relmap_read: ReadGlobalRelMap / ReadDatabaseRelMap / ReadAllRelMaps on a data directory.
     args = pg_database file (or ~), claimed database oids (comma list), global map (or ~), then `oid=map` per database. -/
